@@ -22,7 +22,7 @@ import vlib
 
 FAM = "breaker"
 PKG = "core/breaker"
-DRV = ["zz_verif_c01_test.go", "zz_verif_c01_names_test.go"]
+DRV = ["zz_verif_c01_test.go", "zz_verif_c01_names_test.go", "zz_verif_c01_wb_test.go", "zz_verif_c01_nowb_test.go"]
 TR = ("BreakerTrace", "BreakerTrace.cfg")
 TRN = ("BreakerNamesTrace", "BreakerNamesTrace.cfg")
 
@@ -112,7 +112,9 @@ def check(run):
     if thorough:
         # the wrappers named in the anchors: same events, same specification
         exp = {os.path.join(vlib.REPO, "core/breaker/zz_verif_c01_export.go"):
-               os.path.join(vlib.OVERLAY, "core/breaker/zz_verif_c01export_test.go")}
+               os.path.join(vlib.OVERLAY, "core/breaker/zz_verif_c01export_test.go"),
+               os.path.join(vlib.REPO, "core/breaker/zz_verif_c01_export_nowb.go"):
+               os.path.join(vlib.OVERLAY, "core/breaker/zz_verif_c01export_nowb_test.go")}
         env = {"VERIF_C01_WHIST": 40, "VERIF_C01_WLEN": 300}
         for pkg, f, test, label in [
                 ("zrpc/internal/clientinterceptors", "zz_verif_c01_client_test.go", "TestVerifC01ClientInterceptor$", "zrpc-client"),
